@@ -63,10 +63,12 @@ PROPS["C10"] = {"quick": [Z("ZZ_C10_Fallback", labels=["fallback:", "nesting:"],
 PROPS["C11"] = {"quick": [Z("ZZ_C11_Cache", labels=["cache:", "nesting:"], **_ca_q)],
                 "thorough": [Z("ZZ_C11_Cache", labels=["cache:", "nesting:"], params={"execs": 3, "max_inv": 3, "max_retries": 1, "handles": 3}, native=True, time_limit_s=9000, note="3 executions; <=3 invocations; all key kinds; symbolic prefilled content")]}
 PROPS["C12"] = {
-    "quick": [J("policy", "ZZ_H12a_IsFailure", native=True, params={"max_regs": 3}, note="every order/subset of <=3 handle registrations x 11 error shapes x symbolic results"),
-              J("policy", "ZZ_H12b_IsAbortable", native=True, params={"max_regs": 3}, note="every order/subset of <=3 abort registrations x 11 error shapes")],
+    "quick": [J("policy", "ZZ_H12a_IsFailure", native=True, params={"max_regs": 3}, note="every order/subset of <=3 handle registrations x 16 error shapes x symbolic results"),
+              J("policy", "ZZ_H12b_IsAbortable", native=True, params={"max_regs": 3}, note="every order/subset of <=3 abort registrations x 16 error shapes"),
+              J("policy", "ZZ_H12c_ResultShapes", native=True, note="HandleResult/AbortOnResult on pointer, pointer-holding struct, slice and struct result types: fresh but deeply equal values match; handled and returned field symbolic")],
     "thorough": [J("policy", "ZZ_H12a_IsFailure", native=True, params={"max_regs": 4}, time_limit_s=1500, note="<=4 registrations"),
-                 J("policy", "ZZ_H12b_IsAbortable", native=True, params={"max_regs": 4}, time_limit_s=1500, note="<=4 registrations")],
+                 J("policy", "ZZ_H12b_IsAbortable", native=True, params={"max_regs": 4}, time_limit_s=1500, note="<=4 registrations"),
+                 J("policy", "ZZ_H12c_ResultShapes", native=True, note="result conditions on pointer / pointer-holding struct / slice / struct result types")],
     "assumptions": ["error shapes from the stated catalogue (nil, sentinel, wrapped 1-2 levels, joined, typed by value and by pointer receiver)", "AbortOnResult on an outcome that also carries an error: either answer accepted (not specified)"],
 }
 _cmp_q1 = dict(params={"depth": 2, "execs": 1, "max_inv": 3, "max_retries": 1, "handles": 3}, native=True, time_limit_s=900,
@@ -87,6 +89,8 @@ PROPS["C05"] = {
           note="inductive step from arbitrary valid state; (M,P) in {(1,1s),(2,1s),(2,50ms),(4,1s),(8,7ns)}; deficit>=-2^20; k<=1024; t<2^47"),
         J("ratelimiter", "ZZ_H05c_KAtOnce", solver=INT, native=True, params={"bursty_cfgs": 3, "smooth_cfgs": 3}, note="k<=4 at once vs k singles at the same instant"),
         J("ratelimiter", "ZZ_H05g_PublicAPI", solver=INT, native=True, note="every public permit method (Try/Reserve/TryReserve, 1 or k<=8 permits, symbolic max wait/instant/state) vs the kernel on a twin"),
+        J("ratelimiter", "ZZ_H05e_History", solver=INT, native=True, params={"ops": 3, "bursty_cfgs": 2, "smooth_cfgs": 2},
+          note="history of 3 single-permit requests (TryReservePermit with symbolic max wait) at symbolic non-decreasing instants on a freshly built limiter, against the property as stated (greedy earliest assignment; <=M usable per slot/period); smooth {1,3 ns} via both builders, bursty {(1,1s),(2,1s)}"),
         L2("ZZ_S05f_BlockingAcquire", 1, solver=INT, labels=["limiter:"], note="blocking AcquirePermit(ctx) on a smooth / bursty limiter (1 permit per 1000 ns), symbolic request instants and cancellation; P=1"),
     ],
     "assumptions": ["requested permits k >= 1", "stopwatch non-decreasing", "blocking acquire: interval/period 1 us, one permit per slot/period", "interval/period taken from the stated grid; bursty maxExecutions is a power of two (division of a symbolic deficit by 3, 5, 10 or 100 is not decided by any installed solver within 60 s)"],
@@ -96,6 +100,8 @@ PROPS["C05"]["thorough"] = [
     J("ratelimiter", "ZZ_H05b_BurstyStep", solver=INT, native=True, params={"bursty_cfgs": 5, "deficit_bits": 30}, time_limit_s=3000, note="inductive step; 5 (M,P) pairs; deficit>=-2^30; k<=1024; t<2^47"),
     J("ratelimiter", "ZZ_H05c_KAtOnce", solver=INT, native=True, params={"bursty_cfgs": 5, "smooth_cfgs": 7}, time_limit_s=3000, note="k<=4 at once vs k singles; all grids"),
     J("ratelimiter", "ZZ_H05g_PublicAPI", solver=INT, native=True, time_limit_s=3000, note="public permit API vs kernel twin"),
+    J("ratelimiter", "ZZ_H05e_History", solver=INT, native=True, params={"ops": 4, "bursty_cfgs": 3, "smooth_cfgs": 3}, time_limit_s=3000,
+      note="history of 4 single-permit requests on a freshly built limiter vs the property as stated; smooth {1,3,7 ns} via both builders, bursty {(1,1s),(2,1s),(2,50ms)}"),
     L2("ZZ_S05f_BlockingAcquire", 3, solver=INT, labels=["limiter:"], time_limit_s=3000, note="blocking acquire; P=3"),
 ]
 
